@@ -548,7 +548,9 @@ func (c *Connection) setupConnection() error {
 				c.handshakeVersion = version
 				c.handshakeVersionData = versionData
 				if c.useNodeToNodeProto && versionData != nil {
-					if versionData.DiffusionMode() == protocol.DiffusionModeInitiatorAndResponder {
+					// Full duplex only exists from node-to-node v10 on
+					if protocol.GetProtocolVersion(version).EnableFullDuplex &&
+						versionData.DiffusionMode() == protocol.DiffusionModeInitiatorAndResponder {
 						handshakeFullDuplex = true
 					}
 				}
